@@ -26,6 +26,9 @@ func registerIntrinsics(e *Engine) {
 	registerScanner(e)
 	registerJSON(e)
 	registerMisc2(e)
+	for _, n := range []string{"String", "Int64", "Bool", "Int", "StringValue", "Int64Value", "BoolValue"} {
+		allowExecNames["github.com/go-openapi/swag."+n] = true
+	}
 	allowExecNames["(*errors.errorString).Error"] = true
 	allowExecNames["(*fmt.wrapError).Error"] = true
 	allowExecNames["(*fmt.wrapError).Unwrap"] = true
